@@ -7,6 +7,7 @@ import (
 	"fmt"
 	mbig "math/big"
 	"os"
+	"runtime/debug"
 	"strings"
 	"testing"
 	"time"
@@ -35,6 +36,8 @@ func TestMain(m *testing.M) {
 			"'all cancellation instants' is sampled through the generated deadlines, not enumerated",
 			"EvalStringWithOption returns the formatted program text by contract; in the indented (non-compact) format that text is quadratic in block nesting depth and is produced before evaluation starts, outside the deadline: " +
 				"block nesting between 3000 levels and the parser's limit (10000) is generated with the compact format only",
+			"unbounded recursion on the Go stack (parser, printer, evaluator) kills the process only once the stack reaches Go's limit (1 GB by default), which needs sources of tens of megabytes; the nesting family " +
+				"runs the child with a 32 MiB limit instead (debug.SetMaxStack), so that recursion not bounded by the parser's nesting limit or the depth limit is fatal within 1 MB of source; bounded recursion (10000 levels) fits many times",
 			"sprintf width specifiers are not 'operators that grow containers or strings' and are not generated",
 		},
 	})
@@ -47,6 +50,7 @@ type Case struct {
 	Deadline int    `json:"deadline_ms"` // evaluation deadline
 	MemMiB   int    `json:"mem_mib"`     // GOMEMLIMIT
 	Compact  bool   `json:"compact,omitempty"`
+	StackMiB int    `json:"stack_mib,omitempty"` // Go's maximum stack size in the child (0 = default, 1 GB)
 }
 
 type Report struct {
@@ -66,6 +70,9 @@ func childMain(raw json.RawMessage) int {
 	o.MaxDepth = c.MaxDepth
 	o.MaxDuration = time.Duration(c.Deadline) * time.Millisecond
 	o.Compact = c.Compact
+	if c.StackMiB > 0 {
+		debug.SetMaxStack(c.StackMiB << 20)
+	}
 	start := time.Now()
 	res, errs, _ := repl.EvalStringWithOption(context.Background(), o, c.Program)
 	for i := range errs {
@@ -176,6 +183,39 @@ func nest(open, leaf, closing string, n int) string {
 	return strings.Repeat(open, n) + leaf + strings.Repeat(closing, n)
 }
 
+// nestingForms: every syntactic way of nesting (n levels, nb for blocks) or chaining that the family uses.
+func nestingForms(n, nb int) []string {
+	return []string{
+		nest("(", "1", ")", n),
+		nest("[", "1", "]", n),
+		nest("{1:", "1", "}", n),
+		nest("if true {", "1", "}", nb),
+		nest("x=>", "1", "", n),
+		nest("-", "1", "", n),
+		nest("!", "true", "", n),
+		nest("f(", "1", ")", n),
+		nest("func(){", "1", "}()", nb),
+		nest("1+", "1", "", n),
+		nest("a=", "1", "", n/10+1),
+		"x = " + nest("[", "", "]", n) + "; len(x)",
+		// chains: constructs repeated side by side that still make the tree (and the parser's recursion) deeper
+		chain("if false { 1 }", " else if false { 1 }", " else { 2 }", n),
+		chain("f = () => f; f", "()", "", n),
+		chain("a = [0]; a[0] = a; a", "[0]", "", n),
+		chain("m = {\"k\": 1}; m", ".k", "", n),
+		chain("1", " + 1", "", n),
+		chain("x = 1; x", " || x", "", n),
+	}
+}
+
+// chain builds head + n x unit + tail, fewer units if the text would exceed 1 MB.
+func chain(head, unit, tail string, n int) string {
+	if n*len(unit) > 1<<20 {
+		n = (1 << 20) / len(unit)
+	}
+	return head + strings.Repeat(unit, n) + tail
+}
+
 func genCase(t *rapid.T) Case {
 	c := Case{
 		Deadline: rapid.SampledFrom([]int{1, 5, 20, 100, 300, 1000}).Draw(t, "deadline"),
@@ -253,26 +293,14 @@ func genCase(t *rapid.T) Case {
 		}
 	case 3:
 		c.Family = "nesting"
+		c.StackMiB = 32 // see the assumption about the stack size
 		n := rapid.SampledFrom([]int{100, 1000, 9000, 11000, 100000, 2000000}).Draw(t, "nest")
 		c.Compact = rapid.Bool().Draw(t, "compact")
 		nb := n // block nesting: see the assumption about the indented program text
 		if !c.Compact && nb > 3000 && nb < 10000 {
 			nb = 3000
 		}
-		c.Program = rapid.SampledFrom([]string{
-			nest("(", "1", ")", n),
-			nest("[", "1", "]", n),
-			nest("{1:", "1", "}", n),
-			nest("if true {", "1", "}", nb),
-			nest("x=>", "1", "", n),
-			nest("-", "1", "", n),
-			nest("!", "true", "", n),
-			nest("f(", "1", ")", n),
-			nest("func(){", "1", "}()", nb),
-			nest("1+", "1", "", n),
-			nest("a=", "1", "", n/10+1),
-			"x = " + nest("[", "", "]", n) + "; len(x)",
-		}).Draw(t, "nesting")
+		c.Program = rapid.SampledFrom(nestingForms(n, nb)).Draw(t, "nesting")
 	case 4:
 		c.Family = "sleep"
 		c.Program = rapid.SampledFrom([]string{"sleep(100)", "sleep(3600.5)", "for true { sleep(0.001) }", "func z() { sleep(50) }; z()"}).Draw(t, "sleep")
@@ -289,6 +317,32 @@ func genCase(t *rapid.T) Case {
 		}).Draw(t, "mixed")
 	}
 	return c
+}
+
+// every nesting / chaining form at depths around and far beyond the parser's limit: the deterministic part
+func TestNestingForms(t *testing.T) {
+	idx := 0
+	for _, n := range []int{9000, 11000, 60000, 2000000} {
+		nb := n
+		for fi := range nestingForms(10, 10) {
+			for _, compact := range []bool{true, false} {
+				idx++
+				if !pbt.Mine(idx) {
+					continue
+				}
+				nbb := nb
+				if !compact && nbb > 3000 && nbb < 10000 {
+					nbb = 3000
+				}
+				c := Case{Family: "nesting", Program: nestingForms(n, nbb)[fi], MaxDepth: 500, Deadline: 300, MemMiB: 256, Compact: compact, StackMiB: 32}
+				o, err := check(c)
+				if err != nil {
+					pbt.Fail(t, "case", c, "%v\nprogram (first 200 bytes): %.200s", err, c.Program)
+				}
+				pbt.CaseExact(o.guard != "", "nesting-forms:guard:"+o.guard)
+			}
+		}
+	}
 }
 
 func TestBounds(t *testing.T) {
